@@ -404,7 +404,43 @@ def startup_before_input(P, R, rule='C02.WIRE.2'):
     R.floor(rule, 1, 'scheduling of the start-up callback')
 
 
+def module_record_from_announcement(P, R, rule='C02.WIRE.3'):
+    """Every handler of a module finds its per-client record with a lookup and does nothing when there is none; the
+    record therefore exists from the announcement on - it is created by what the module installs in the new_client
+    slot.  Created on first use by ONE handler, it is missing for the others: a PASS that arrives before any other line
+    is dropped, no LOGIN is sent, no +! hold taken, and the client is accepted without the account it asked for."""
+    slots = P.slots()
+    nc = set(slots.get('iauth_module::new_client', ()))
+    n = 0
+    for f in P.fns.values():
+        if f.unit.startswith('tests/') or f.unit == core.sender(P).unit:
+            continue
+        for s in f.calls('set_insert'):
+            a = s.ev['args'][0] if s.ev['args'] else None
+            if not (isinstance(a, dict) and any(x.get('k') == 'mem' and x.get('field') == 'data' and x.get('rec') == core.REQ_REC for x in walk(a))):
+                continue
+            n += 1
+            # f is in the slot, or every caller chain of f starts in the slot
+            ok = f.key in nc
+            if not ok:
+                seen, work, ok = set(), [f], True
+                while work and ok:
+                    g = work.pop()
+                    if g.key in seen:
+                        continue
+                    seen.add(g.key)
+                    if g.key in nc:
+                        continue
+                    cs = P.callers(g, may=True)
+                    if not cs:
+                        ok = False
+                    work += [c.fn for c in cs]
+            R.ob(rule, ok, s, 'the per-client record of %s is created when the client is announced (by what the module installs in the new_client slot)' % f.unit, key='record-created:%s' % f.unit)
+    R.floor(rule, 1, 'insertions of per-client module records')
+
+
 def run(P, R, tier):
+    module_record_from_announcement(P, R)
     startup_before_input(P, R)
     gate_guard(P, R)
     required_mask(P, R)
